@@ -348,10 +348,29 @@ pub fn check_logs(plans: &[LinkPlan], logs: &Logs, mon: &crate::wire::Monitor, w
 }
 
 pub async fn run() {
+    run_with(crate::wire::Models::none(), true).await
+}
+
+/// The same pair workload judged by the frame-size and decodability models (C06)
+pub async fn run_sizes() {
+    let mut m = crate::wire::Models::none();
+    m.size = true;
+    m.decodable = true;
+    run_with(m, false).await
+}
+
+async fn run_with(models: crate::wire::Models, judge_delivery: bool) {
     let ccfg = EndpointCfg::draw(1);
-    let lcfg = EndpointCfg::draw(1);
+    let mut lcfg = EndpointCfg::draw(1);
+    if !judge_delivery && lcfg.circular_wait_class() {
+        // the circular-wait configurations belong to C01's known finding
+        lcfg.conn_buffer = 2048;
+    }
     let (nab, nba, nd) = world::draw_net(true);
     let mut ccfg = ccfg;
+    if !judge_delivery && ccfg.circular_wait_class() {
+        ccfg.conn_buffer = 2048;
+    }
     if let Ok(v) = std::env::var("VERIF_DBG_SBUF") {
         ccfg.sess_buffer = v.parse().unwrap();
     }
@@ -397,7 +416,7 @@ pub async fn run() {
         sim::probe("link-level-split-message");
     }
 
-    let mut pair = match world::open_pair(&ccfg, &lcfg, nab, nba, crate::wire::Models::none()).await {
+    let mut pair = match world::open_pair(&ccfg, &lcfg, nab, nba, models).await {
         Some(p) => p,
         None => return,
     };
@@ -552,7 +571,9 @@ pub async fn run() {
         return;
     }
     pair.mon.borrow_mut().sync();
-    check_logs(&plans, &logs, &pair.mon.borrow(), (ccfg.incoming_window, lcfg.incoming_window));
+    if judge_delivery {
+        check_logs(&plans, &logs, &pair.mon.borrow(), (ccfg.incoming_window, lcfg.incoming_window));
+    }
     if sim::has_violation() {
         return;
     }
